@@ -65,6 +65,10 @@ var checks = map[string]checkCfg{
 			{Name: "enum", Variant: "plain", Tests: "^TestC07Enum$", QuickShards: 4, ThoroughShards: 8},
 			rp("rapid", "^TestC07$", 4, 1500, 16, 15000),
 			{Name: "fuzz", Variant: "plain", ThoroughOnly: true, Fuzz: "^FuzzC07$", FuzzSeconds: 120, ThoroughShards: 1}}},
+	"C08": {Level: "exploration", Technique: "rapid histories of all procedures (well-formed/truncated/garbage) vs backend recorder + snapshot",
+		Rule:        "cases are rapid-generated histories of NFSv3 procedures 0..23 and MOUNT procedures with well-formed arguments on pre-seeded objects, arguments truncated at a 4-byte boundary or followed by random bytes, under four credentials, interleaved with read-only on/off switches through UpdatePolicyOptions and UpdateExportOptions; non-trivial = while read-only is in force a well-formed mutating procedure (SETATTR..COMMIT) was issued by an accepted credential; anti-vacuity label counts mutations that succeed while read-write; distinct = FNV-64 of the case JSON",
+		Assumptions: baseAssumptions,
+		Phases:      []phase{rp("rapid", "^TestC08$", 6, 1500, 16, 15000)}},
 	"C02": {Level: "exploration", Technique: "rapid histories vs POSIX tree model + cached-vs-uncached differential",
 		Rule:        "cases are rapid-generated sequential histories of LOOKUP/CREATE/MKDIR/SYMLINK/REMOVE/RMDIR/RENAME/READDIR(PLUS)/GETATTR/READLINK over names {a,b,c} to depth 3, addressed through every handle ever issued (stale ones included); each history runs under the all-off baseline and k cached configurations (quick 3, thorough 6 of 15); non-trivial = a read-type request on a name or directory affected by an earlier successful mutation, executed under a configuration with at least one cache on; distinct = FNV-64 of the case JSON",
 		Assumptions: append([]string{"documented latitude L1-L7 of DESIGN.md §5 C02 (REMOVE of empty dir, UNCHECKED/EXCLUSIVE on existing objects, error code identity not compared against the model, path-bound handles)"}, baseAssumptions...),
